@@ -420,19 +420,6 @@ theorem declVar_cases {fc : FCtx} {v kl : String} {many : Bool} {m : St} (hok : 
       simp only [hs]
       cases many <;> simp
 
-/-- the statements the statement-level theorem covers (no nested block; instance names other than `self`) -/
-def coreS0 : Stmt → Bool
-  | .brk | .cont | .ctl | .ret none | .createNV _ => true
-  | .ret (some e) => coreE e
-  | .delete v => v != "self"
-  | .create v _ => v != "self"
-  | .assign (.var n) r => n != "self" && coreE r
-  | .assign (.field h _) r => coreE h && coreE r
-  | .selFrom card v _ => v != "self" && lowerStr card == card
-  | .relate a b _ _ | .unrelate a b _ _ => a != "self" && b != "self"
-  | .relateU a b _ _ u | .unrelateU a b _ _ u => a != "self" && b != "self" && u != "self"
-  | _ => false
-
 theorem regenVar_name {q : FlatPop} {v : Nat} {n : String} {b : Nat} (h : q[v]? = some (.var n b)) :
     regenVar q v = [nameTok n] := by simp [regenVar, h]
 
@@ -448,6 +435,84 @@ theorem sym_row {m : St} (hs : SymOK m) {n : String} {v : Nat} (hf : findSym m.s
   rw [List.getElem?_append_left this]; exact hb
 
 theorem fuel_succ {n : Nat} (h : 1 ≤ n) : ∃ f, n = f + 1 := ⟨n - 1, by omega⟩
+
+/-! ### looking a variable up (`self` is created on first use) -/
+
+/-- row `x` of the population is the V_VAR named `n` -/
+def IsVar (p : FlatPop) (x : Nat) (n : String) : Prop := ∃ b, p[x]? = some (.var n b)
+
+theorem IsVar.append {p : FlatPop} {x : Nat} {n : String} (h : IsVar p x n) (d : List Row) : IsVar (p ++ d) x n := by
+  obtain ⟨b, hb⟩ := h
+  refine ⟨b, ?_⟩
+  have : x < p.length := by
+    rcases Nat.lt_or_ge x p.length with h' | h'
+    · exact h'
+    · simp [List.getElem?_eq_none h'] at hb
+  rw [List.getElem?_append_left this]; exact hb
+
+theorem IsVar.regen {p : FlatPop} {x : Nat} {n : String} (h : IsVar p x n) (sub : Row) (ext : List Row) :
+    regenVar (p ++ [sub] ++ ext) x = [nameTok n] := by
+  obtain ⟨b, hb⟩ := (h.append [sub]).append ext
+  exact regenVar_name hb
+
+/-- `needVar` under `ok`: the visible variable, or — for the name `self`, not visible, in a home that has a `self` —
+    a fresh V_VAR + V_INT of the home's class -/
+theorem needVar_cases {fc : FCtx} {n : String} {m : St} (hok : (needVar fc n m).2.ok = true) :
+    (∃ v, findSym m.scopes n = some v ∧ needVar fc n m = (v, m)) ∨
+    (n = "self" ∧ findSym m.scopes n = none ∧ ∃ kl, fc.selfKl = some kl ∧
+      needVar fc n m = newVar "self" (fun v => .vint v kl) m) := by
+  unfold needVar at hok ⊢
+  cases hc : (canonName n != n || lowerStr n == "sender") with
+  | true => simp [lookupVar, hc] at hok
+  | false =>
+    rw [lookupVar_eq hc] at hok ⊢
+    cases hf : findSym m.scopes n with
+    | some v => left; exact ⟨v, rfl, by simp⟩
+    | none =>
+      cases hs : n == "self" with
+      | false => simp [hf, hs] at hok
+      | true =>
+        cases hk : fc.selfKl with
+        | none => simp [hf, hs, hk] at hok
+        | some kl =>
+          right
+          refine ⟨by simpa using hs, rfl, kl, rfl, ?_⟩
+          simp only [hs, if_true]
+
+/-- what one look-up that must succeed does to the builder state: no rows, or the V_VAR + V_INT of `self` (no statement,
+    no value, no key that is searched backwards), the symbol installed in the innermost scope -/
+structure LookSpec (fc : FCtx) (n : String) (m : St) : Prop where
+  ok0 : m.ok = true
+  grows : ∃ dv : List Row, (needVar fc n m).2.pop = m.pop ++ dv ∧ ∀ x ∈ dv, x.smtOf = none ∧ skeys x = []
+  ts : TS (needVar fc n m).2.pop
+  sym : SymOK (needVar fc n m).2
+  shape : curBlk (needVar fc n m).2.scopes = curBlk m.scopes ∧ (needVar fc n m).2.scopes.tail = m.scopes.tail
+  row : IsVar (needVar fc n m).2.pop (needVar fc n m).1 n
+
+theorem needVar_spec {fc : FCtx} {n : String} {m : St} (hts : TS m.pop) (hsym : SymOK m)
+    (hblk : (curBlk m.scopes).isSome = true) (hok : (needVar fc n m).2.ok = true) : LookSpec fc n m := by
+  have hne : m.scopes ≠ [] := by
+    intro h; rw [h] at hblk; simp [curBlk] at hblk
+  rcases needVar_cases hok with ⟨v, hf, hd⟩ | ⟨hn, hf, kl, hk, hd⟩
+  · rw [hd] at hok
+    refine ⟨hok, ⟨[], ?_, by simp⟩, ?_, ?_, ?_, ?_⟩ <;> rw [hd]
+    · simp
+    · exact hts
+    · exact hsym
+    · exact ⟨rfl, rfl⟩
+    · exact hsym n v hf
+  · rw [hd] at hok
+    simp [newVar_ok] at hok
+    refine ⟨hok.1, ⟨[.var "self" (curBlkD m.scopes), .vint m.pop.length kl], ?_, ?_⟩, ?_, ?_, ?_, ?_⟩ <;> (try rw [hd])
+    · simp
+    · intro x hx
+      simp at hx
+      rcases hx with rfl | rfl <;> simp [Row.smtOf, skeys]
+    · exact newVar_ts hts (fun i => by simp [Row.valOf, Row.smtOf, skeys])
+    · exact newVar_sym hsym hne
+    · simp [curBlk_install, install_tail]
+    · subst hn
+      exact ⟨curBlkD m.scopes, by simp⟩
 
 /-- statements that are an ACT_SMT followed at once by the subtype row -/
 theorem bare_spec {fc : FCtx} {prev : Option Nat} {s : Stmt} {st : St} (sub : Row) (c : Bool)
@@ -549,6 +614,136 @@ theorem expr_rows_plain {fc : FCtx} {e : Expr} {st : St} {d : List Row}
   | e _ _ _ => simp [Row.smtOf] at h1
   | _ => rfl
 
+/-! ### `self` as an expression (value level; not yet part of `coreE` / `coreB`) -/
+
+/-- `coreE` + the instance handle `self` + attribute reads rooted at it (`self.attr`) -/
+def coreX : Expr → Bool
+  | .self => true
+  | .field h a => coreX h || coreE (.field h a)
+  | e => coreE e
+
+/-- what one `accept_<expression node>` call does to the builder state when the look-up of `self` may CREATE the
+    variable: like `ExprSpec`, but the rows may contain a V_VAR + V_INT and the innermost scope may gain the symbol -/
+structure ExprSpecW (fc : FCtx) (e : Expr) (st : St) : Prop where
+  ok0 : st.ok = true
+  shape : curBlk (buildExpr fc e st).2.scopes = curBlk st.scopes ∧ (buildExpr fc e st).2.scopes.tail = st.scopes.tail
+  grows : ∃ d : List Row, (buildExpr fc e st).2.pop = st.pop ++ d ∧ szV e + 1 ≤ d.length ∧
+    ∀ x ∈ d, x.smtOf = none ∧ skeys x = []
+  ts : TS (buildExpr fc e st).2.pop
+  sym : SymOK (buildExpr fc e st).2
+  isVal : ∃ b, (buildExpr fc e st).2.pop[(buildExpr fc e st).1]? = some (.val b)
+  regen : ∀ (ext : List Row) (fuel : Nat), szV e ≤ fuel →
+    regenVal ((buildExpr fc e st).2.pop ++ ext) fuel (buildExpr fc e st).1 = genExpr e
+
+theorem ExprSpec.weak {fc : FCtx} {e : Expr} {st : St} (h : ExprSpec fc e st) (hts : TS st.pop) (hsym : SymOK st) :
+    ExprSpecW fc e st := by
+  obtain ⟨d, hd, hl, _, ho⟩ := h.grows
+  exact ⟨h.ok0, by rw [h.scopes]; exact ⟨rfl, rfl⟩, ⟨d, hd, hl, expr_rows_plain (fc := fc) (e := e) (st := st) ho⟩,
+    hts.expr h, h.symOK hsym, h.isVal, h.regen⟩
+
+theorem TS.leaf {p : FlatPop} (h : TS p) (b : Nat) (sub : Row) (hv : sub.valOf = some p.length)
+    (hs : sub.smtOf = none) (hk : skeys sub = []) : TS (p ++ [.val b, sub]) := by
+  have : p ++ [Row.val b, sub] = (p ++ [Row.val b]) ++ [sub] := by simp
+  rw [this]
+  apply TS.append1
+  · apply h.append1
+    simp [Row.valOf, Row.smtOf, skeys]
+  · refine ⟨fun k hk' => ?_, fun k hk' => (by rw [hs] at hk'; cases hk'), fun k hk' => (by rw [hk] at hk'; cases hk')⟩
+    rw [hv] at hk'; cases hk'; simp
+
+/-- `self` read as a value: the look-up (which may create V_VAR + V_INT), then V_VAL + V_IRF -/
+theorem self_specW {fc : FCtx} {st : St} (hts : TS st.pop) (hsym : SymOK st)
+    (hblk : (curBlk st.scopes).isSome = true) (hok : (buildExpr fc .self st).2.ok = true) : ExprSpecW fc .self st := by
+  have hb : buildExpr fc .self st = mkLeaf (needVar fc "self" st).2 (fun i => .irf i (needVar fc "self" st).1) := by
+    simp [buildExpr, mkLeaf]
+  have hl : (needVar fc "self" st).2.ok = true := by
+    rw [hb] at hok; simp [mkLeaf] at hok; exact hok.1
+  have L := needVar_spec hts hsym hblk hl
+  obtain ⟨dv, hdv, hrows⟩ := L.grows
+  have hpop : (buildExpr fc .self st).2.pop = (needVar fc "self" st).2.pop ++
+      [.val (curBlkD (needVar fc "self" st).2.scopes), .irf (needVar fc "self" st).2.pop.length (needVar fc "self" st).1] := by
+    rw [hb]; simp [mkLeaf]
+  have hfst : (buildExpr fc .self st).1 = (needVar fc "self" st).2.pop.length := by rw [hb]; simp [mkLeaf]
+  have hsc : (buildExpr fc .self st).2.scopes = (needVar fc "self" st).2.scopes := by rw [hb]; simp [mkLeaf]
+  refine ⟨L.ok0, by rw [hsc]; exact L.shape, ⟨dv ++ [.val (curBlkD (needVar fc "self" st).2.scopes),
+    .irf (needVar fc "self" st).2.pop.length (needVar fc "self" st).1], ?_, ?_, ?_⟩, ?_, ?_, ?_, ?_⟩
+  · rw [hpop, hdv]; simp
+  · simp [szV]
+  · intro x hx
+    rcases List.mem_append.1 hx with h | h
+    · exact hrows x h
+    · simp at h
+      rcases h with rfl | rfl <;> simp [Row.smtOf, skeys]
+  · rw [hpop]; exact L.ts.leaf _ _ rfl rfl rfl
+  · exact L.sym.mono hsc hpop
+  · exact ⟨curBlkD (needVar fc "self" st).2.scopes, by rw [hpop, hfst]; simp⟩
+  · intro ext fuel hf
+    obtain ⟨f, rfl⟩ := fuel_succ (by simpa [szV] using hf)
+    rw [hpop, hfst]
+    have hsub := leaf_spec L.ts.tsv (curBlkD (needVar fc "self" st).2.scopes)
+      (.irf (needVar fc "self" st).2.pop.length (needVar fc "self" st).1) rfl ext
+    obtain ⟨bx, hbx⟩ := (L.row.append [.val (curBlkD (needVar fc "self" st).2.scopes),
+      .irf (needVar fc "self" st).2.pop.length (needVar fc "self" st).1]).append ext
+    simp only [regenVal, hsub, regenVar_name hbx, genExpr]
+    rfl
+
+/-- an attribute read over a root that may have created `self` -/
+theorem field_specW {fc : FCtx} {h : Expr} {a : String} {st : St} (W : ExprSpecW fc h st)
+    (hblk : (curBlk st.scopes).isSome = true) (hok : (buildExpr fc (.field h a) st).2.ok = true) :
+    ExprSpecW fc (.field h a) st := by
+  obtain ⟨g, hb⟩ : ∃ g : Bool, buildExpr fc (.field h a) st =
+      mkLeaf ((buildExpr fc h st).2.guard g) (fun i => .avl i (buildExpr fc h st).1 a) := by
+    simp only [buildExpr, mkLeaf]
+    exact ⟨_, rfl⟩
+  obtain ⟨d, hd, hl, hrows⟩ := W.grows
+  have hpop : (buildExpr fc (.field h a) st).2.pop = (buildExpr fc h st).2.pop ++
+      [.val (curBlkD (buildExpr fc h st).2.scopes), .avl (buildExpr fc h st).2.pop.length (buildExpr fc h st).1 a] := by
+    rw [hb]; simp [mkLeaf]
+  have hfst : (buildExpr fc (.field h a) st).1 = (buildExpr fc h st).2.pop.length := by rw [hb]; simp [mkLeaf]
+  have hsc : (buildExpr fc (.field h a) st).2.scopes = (buildExpr fc h st).2.scopes := by rw [hb]; simp [mkLeaf]
+  refine ⟨W.ok0, by rw [hsc]; exact W.shape, ⟨d ++ [.val (curBlkD (buildExpr fc h st).2.scopes),
+    .avl (buildExpr fc h st).2.pop.length (buildExpr fc h st).1 a], ?_, ?_, ?_⟩, ?_, ?_, ?_, ?_⟩
+  · rw [hpop, hd]; simp
+  · simp [szV]; omega
+  · intro x hx
+    rcases List.mem_append.1 hx with h' | h'
+    · exact hrows x h'
+    · simp at h'
+      rcases h' with rfl | rfl <;> simp [Row.smtOf, skeys]
+  · rw [hpop]; exact W.ts.leaf _ _ rfl rfl rfl
+  · exact W.sym.mono hsc hpop
+  · exact ⟨curBlkD (buildExpr fc h st).2.scopes, by rw [hpop, hfst]; simp⟩
+  · intro ext fuel hf
+    simp only [szV] at hf
+    obtain ⟨f, rfl⟩ := fuel_succ (by omega : 1 ≤ fuel)
+    rw [hpop, hfst]
+    have hsub := leaf_spec W.ts.tsv (curBlkD (buildExpr fc h st).2.scopes)
+      (.avl (buildExpr fc h st).2.pop.length (buildExpr fc h st).1 a) rfl ext
+    have hrec := W.regen ([.val (curBlkD (buildExpr fc h st).2.scopes),
+      .avl (buildExpr fc h st).2.pop.length (buildExpr fc h st).1 a] ++ ext) f (by omega)
+    rw [← List.append_assoc] at hrec
+    simp only [regenVal, hsub, hrec, genExpr]
+
+/-- value level for `coreX` (= `coreE`, `self`, `self.attr`), from ANY sound builder state: the rows read back as the
+    source expression, `TS` / `SymOK` / the current block are kept -/
+theorem buildExpr_specW (fc : FCtx) : ∀ (e : Expr) (st : St), coreX e = true → TS st.pop → SymOK st →
+    (curBlk st.scopes).isSome = true → (buildExpr fc e st).2.ok = true → ExprSpecW fc e st
+  | .self, st, _, hts, hsym, hblk, hok => self_specW hts hsym hblk hok
+  | .field h a, st, hc, hts, hsym, hblk, hok => by
+    simp only [coreX, Bool.or_eq_true] at hc
+    rcases hc with hc | hc
+    · have hokh : (buildExpr fc h st).2.ok = true := by
+        simp [buildExpr] at hok; exact hok.1.1
+      exact field_specW (buildExpr_specW fc h st hc hts hsym hblk hokh) hblk hok
+    · exact (buildExpr_spec fc _ st hc hsym hts.tsv hok).weak hts hsym
+  | .int v, st, hc, hts, hsym, _, hok | .real v, st, hc, hts, hsym, _, hok | .str v, st, hc, hts, hsym, _, hok
+  | .bool v, st, hc, hts, hsym, _, hok | .enum _ v, st, hc, hts, hsym, _, hok | .var v, st, hc, hts, hsym, _, hok
+  | .selected, st, hc, hts, hsym, _, hok | .param _, st, hc, hts, hsym, _, hok
+  | .un _ _, st, hc, hts, hsym, _, hok | .bin _ _ _, st, hc, hts, hsym, _, hok
+  | .index _ _, st, hc, hts, hsym, _, hok | .call _ _ _ _, st, hc, hts, hsym, _, hok
+  | .icall _ _ _, st, hc, hts, hsym, _, hok =>
+    (buildExpr_spec fc _ st (by simpa [coreX] using hc) hsym hts.tsv hok).weak hts hsym
+
 /-- assignment whose l-value is accepted like a value (an attribute, a visible variable) -/
 theorem assign_expr_spec {fc : FCtx} {prev : Option Nat} {l r : Expr} {st : St} (M0 : St)
     (hM0p : M0.pop = st.pop ++ [.smt (curBlkD st.scopes) prev]) (hM0s : M0.scopes = st.scopes)
@@ -556,25 +751,26 @@ theorem assign_expr_spec {fc : FCtx} {prev : Option Nat} {l r : Expr} {st : St} 
     (hb : buildStmt fc prev (.assign l r) st = (st.pop.length,
       ((buildExpr fc l (buildExpr fc r M0).2).2.new
         (.ai st.pop.length (buildExpr fc r M0).1 (buildExpr fc l (buildExpr fc r M0).2).1)).2))
-    (hinv : Inv st) (hprev : ∀ k, prev = some k → k < st.pop.length) (hcr : coreE r = true) (hcl : coreE l = true)
+    (hinv : Inv st) (hprev : ∀ k, prev = some k → k < st.pop.length) (hcr : coreX r = true) (hcl : coreX l = true)
     (hok : (buildStmt fc prev (.assign l r) st).2.ok = true) : StmtSpec fc prev (.assign l r) st := by
   have hokL : (buildExpr fc l (buildExpr fc r M0).2).2.ok = true := by rw [hb] at hok; simpa using hok
   have hokR : (buildExpr fc r M0).2.ok = true := buildExpr_ok_mono fc l _ hokL
   have hts0 : TS M0.pop := by rw [hM0p]; simpa using newSmt_ts hinv hprev
   have hsym0 : SymOK M0 := hinv.sym.mono hM0s hM0p
-  have R := buildExpr_spec fc r M0 hcr hsym0 hts0.tsv hokR
-  have L := buildExpr_spec fc l (buildExpr fc r M0).2 hcl (R.symOK hsym0) R.tsv hokL
-  obtain ⟨dR, hdR, hlR, _, hoR⟩ := R.grows
-  obtain ⟨dL, hdL, hlL, _, hoL⟩ := L.grows
+  have hblk0 : (curBlk M0.scopes).isSome = true := by rw [hM0s]; exact hinv.isSome
+  have R := buildExpr_specW fc r M0 hcr hts0 hsym0 hblk0 hokR
+  have L := buildExpr_specW fc l (buildExpr fc r M0).2 hcl R.ts R.sym (by rw [R.shape.1]; exact hblk0) hokL
+  obtain ⟨dR, hdR, hlR, hoR⟩ := R.grows
+  obtain ⟨dL, hdL, hlL, hoL⟩ := L.grows
   apply simple_spec _ _ hb hinv (hM0ok R.ok0)
   · refine ⟨dR ++ dL, by rw [hdL, hdR, hM0p]; simp, by simp [szS]; omega, ?_⟩
     intro x hx
     rcases List.mem_append.1 hx with h | h
-    · exact expr_rows_plain (fc := fc) (e := r) (st := st) hoR x h
-    · exact expr_rows_plain (fc := fc) (e := l) (st := st) hoL x h
-  · exact (hts0.expr R).expr L
-  · exact L.symOK (R.symOK hsym0)
-  · rw [L.scopes, R.scopes, hM0s]; simp
+    · exact hoR x h
+    · exact hoL x h
+  · exact L.ts
+  · exact L.sym
+  · exact ⟨by rw [L.shape.1, R.shape.1, hM0s], by rw [L.shape.2, R.shape.2, hM0s]⟩
   · rfl
   · rfl
   · rfl
@@ -672,7 +868,82 @@ theorem assign_new_spec {fc : FCtx} {prev : Option Nat} {n : String} {r : Expr} 
         (buildExpr fc r M0).2.pop ++ ([a, b, c, d, x] ++ ext) := by intros; simp
     rw [assoc, R.regen _ (f' + 1) (by omega)]
 
+theorem coreX_of_coreE {e : Expr} (h : coreE e = true) : coreX e = true := by
+  cases e <;> simp_all [coreX, coreE]
+
+/-- the statements the statement-level theorem covers (no nested block).  The instance names of `delete`, `relate` /
+    `unrelate` (+ `using`) may be `self` (the look-up creates V_VAR + V_INT the first time, in a home that has a
+    `self`); the returned value and the assigned attribute's root may be `self` / `self.attr` (`coreX`), so may the
+    right-hand side of an assignment to an attribute; the names a statement may DECLARE (`create`, `select`, an assigned
+    transient) are not `self` -/
+def coreS0 : Stmt → Bool
+  | .brk | .cont | .ctl | .ret none | .createNV _ => true
+  | .ret (some e) => coreX e
+  | .delete _ => true
+  | .create v _ => v != "self"
+  | .assign (.var n) r => n != "self" && coreE r
+  | .assign (.field h _) r => coreX h && coreX r
+  | .selFrom card v _ => v != "self" && lowerStr card == card
+  | .relate _ _ _ _ | .unrelate _ _ _ _ => true
+  | .relateU _ _ _ _ _ | .unrelateU _ _ _ _ _ => true
+  | _ => false
+
 theorem guard_true (st : St) : st.guard true = st := by simp [St.guard]
+
+/-- two look-ups after the ACT_SMT (`relate` / `unrelate`) -/
+theorem look2 {fc : FCtx} {prev : Option Nat} {a b : String} {st : St} (hinv : Inv st)
+    (hprev : ∀ k, prev = some k → k < st.pop.length)
+    (hok : (needVar fc b (needVar fc a (newSmt prev st).2).2).2.ok = true) :
+    LookSpec fc a (newSmt prev st).2 ∧ LookSpec fc b (needVar fc a (newSmt prev st).2).2 ∧ st.ok = true ∧
+    (∃ dm : List Row, (needVar fc b (needVar fc a (newSmt prev st).2).2).2.pop =
+        st.pop ++ (.smt (curBlkD st.scopes) prev :: dm) ∧ ∀ x ∈ dm, x.smtOf = none ∧ skeys x = []) ∧
+    (curBlk (needVar fc b (needVar fc a (newSmt prev st).2).2).2.scopes = curBlk st.scopes ∧
+      (needVar fc b (needVar fc a (newSmt prev st).2).2).2.scopes.tail = st.scopes.tail) ∧
+    IsVar (needVar fc b (needVar fc a (newSmt prev st).2).2).2.pop (needVar fc a (newSmt prev st).2).1 a ∧
+    IsVar (needVar fc b (needVar fc a (newSmt prev st).2).2).2.pop
+      (needVar fc b (needVar fc a (newSmt prev st).2).2).1 b := by
+  have hl1 : (needVar fc a (newSmt prev st).2).2.ok = true := needVar_ok_mono hok
+  have L1 := needVar_spec (newSmt_ts hinv hprev) (newSmt_sym hinv) (by simpa using hinv.isSome) hl1
+  have L2 := needVar_spec L1.ts L1.sym (by rw [L1.shape.1]; simpa using hinv.isSome) hok
+  obtain ⟨d1, hd1, hr1⟩ := L1.grows
+  obtain ⟨d2, hd2, hr2⟩ := L2.grows
+  refine ⟨L1, L2, ?_, ⟨d1 ++ d2, ?_, ?_⟩, ?_, ?_, L2.row⟩
+  · have := L1.ok0; simp at this; exact this.1
+  · rw [hd2, hd1]; simp
+  · intro x hx
+    rcases List.mem_append.1 hx with h | h
+    · exact hr1 x h
+    · exact hr2 x h
+  · rw [L2.shape.1, L2.shape.2, L1.shape.1, L1.shape.2]; simp
+  · rw [hd2]; exact L1.row.append d2
+
+/-- three look-ups after the ACT_SMT (`relate` / `unrelate` … `using`) -/
+theorem look3 {fc : FCtx} {prev : Option Nat} {a b u : String} {st : St} (hinv : Inv st)
+    (hprev : ∀ k, prev = some k → k < st.pop.length)
+    (hok : (needVar fc u (needVar fc b (needVar fc a (newSmt prev st).2).2).2).2.ok = true) :
+    LookSpec fc u (needVar fc b (needVar fc a (newSmt prev st).2).2).2 ∧ st.ok = true ∧
+    (∃ dm : List Row, (needVar fc u (needVar fc b (needVar fc a (newSmt prev st).2).2).2).2.pop =
+        st.pop ++ (.smt (curBlkD st.scopes) prev :: dm) ∧ ∀ x ∈ dm, x.smtOf = none ∧ skeys x = []) ∧
+    (curBlk (needVar fc u (needVar fc b (needVar fc a (newSmt prev st).2).2).2).2.scopes = curBlk st.scopes ∧
+      (needVar fc u (needVar fc b (needVar fc a (newSmt prev st).2).2).2).2.scopes.tail = st.scopes.tail) ∧
+    IsVar (needVar fc u (needVar fc b (needVar fc a (newSmt prev st).2).2).2).2.pop (needVar fc a (newSmt prev st).2).1 a ∧
+    IsVar (needVar fc u (needVar fc b (needVar fc a (newSmt prev st).2).2).2).2.pop
+      (needVar fc b (needVar fc a (newSmt prev st).2).2).1 b ∧
+    IsVar (needVar fc u (needVar fc b (needVar fc a (newSmt prev st).2).2).2).2.pop
+      (needVar fc u (needVar fc b (needVar fc a (newSmt prev st).2).2).2).1 u := by
+  have hl2 : (needVar fc b (needVar fc a (newSmt prev st).2).2).2.ok = true := needVar_ok_mono hok
+  obtain ⟨L1, L2, hok0, ⟨dm, hdm, hrows⟩, hshape, hx, hy⟩ := look2 hinv hprev hl2
+  have L3 := needVar_spec L2.ts L2.sym (by rw [hshape.1]; exact hinv.isSome) hok
+  obtain ⟨d3, hd3, hr3⟩ := L3.grows
+  refine ⟨L3, hok0, ⟨dm ++ d3, ?_, ?_⟩, ?_, ?_, ?_, L3.row⟩
+  · rw [hd3, hdm]; simp
+  · intro x hx'
+    rcases List.mem_append.1 hx' with h | h
+    · exact hrows x h
+    · exact hr3 x h
+  · rw [L3.shape.1, L3.shape.2, hshape.1, hshape.2]; simp
+  · rw [hd3]; exact hx.append d3
+  · rw [hd3]; exact hy.append d3
 
 theorem buildStmt_spec0 (fc : FCtx) (s : Stmt) (prev : Option Nat) (st : St) (hc : coreS0 s = true) (hinv : Inv st)
     (hprev : ∀ k, prev = some k → k < st.pop.length) (hok : (buildStmt fc prev s st).2.ok = true) :
@@ -698,23 +969,16 @@ theorem buildStmt_spec0 (fc : FCtx) (s : Stmt) (prev : Option Nat) (st : St) (hc
     | some e =>
       simp only [coreS0] at hc
       have hokE : (buildExpr fc e (newSmt prev st).2).2.ok = true := by simpa [buildStmt] using hok
-      have E := buildExpr_spec fc e (newSmt prev st).2 hc (newSmt_sym hinv) (newSmt_ts hinv hprev).tsv hokE
-      obtain ⟨d, hd, hl, hk, ho⟩ := E.grows
+      have E := buildExpr_specW fc e (newSmt prev st).2 hc (newSmt_ts hinv hprev) (newSmt_sym hinv)
+        (by simpa using hinv.isSome) hokE
+      obtain ⟨d, hd, hl, hrows⟩ := E.grows
       have hok0 : st.ok = true := by have := E.ok0; simp at this; exact this.1
       apply simple_spec (buildExpr fc e (newSmt prev st).2).2 (.ret st.pop.length (some (buildExpr fc e (newSmt prev st).2).1))
         (by simp [buildStmt]) hinv hok0
-      · refine ⟨d, by rw [hd]; simp, by simp [szS]; omega, ?_⟩
-        intro x hx
-        obtain ⟨h1, _, h3, _⟩ := ho x hx
-        refine ⟨h1, ?_⟩
-        cases x with
-        | smt b p => exact absurd rfl (h3 b p)
-        | el _ _ _ _ => simp [Row.smtOf] at h1
-        | e _ _ _ => simp [Row.smtOf] at h1
-        | _ => rfl
-      · exact (newSmt_ts hinv hprev).expr E
-      · exact E.symOK (newSmt_sym hinv)
-      · rw [E.scopes]; simp
+      · exact ⟨d, by rw [hd]; simp, by simp [szS]; omega, hrows⟩
+      · exact E.ts
+      · exact E.sym
+      · simpa using E.shape
       · rfl
       · rfl
       · rfl
@@ -725,83 +989,95 @@ theorem buildStmt_spec0 (fc : FCtx) (s : Stmt) (prev : Option Nat) (st : St) (hc
         rw [← List.append_assoc] at this
         simp only [regenSmt, hs, genStmt, this]
   | delete v =>
-    simp only [coreS0, bne_iff_ne, ne_eq] at hc
     have hl : (needVar fc v (newSmt prev st).2).2.ok = true := by simpa [buildStmt] using hok
-    obtain ⟨x, hf, hnv⟩ := needVar_ok hl hc
-    refine bare_spec (.del st.pop.length x) true (by simp [buildStmt, hnv, guard_true]) hinv hprev hok rfl rfl rfl rfl ?_
-    intro ext f h
-    obtain ⟨b, hb⟩ := sym_row (newSmt_sym (prev := prev) hinv) hf ([.del st.pop.length x] ++ ext)
-    rw [← List.append_assoc] at hb
-    simp only [regenSmt, h, genStmt, regenVar_name hb]
-    rfl
+    have L := needVar_spec (newSmt_ts hinv hprev) (newSmt_sym hinv) (by simpa using hinv.isSome) hl
+    obtain ⟨dv, hdv, hrows⟩ := L.grows
+    have hok0 : st.ok = true := by have := L.ok0; simp at this; exact this.1
+    apply simple_spec (needVar fc v (newSmt prev st).2).2 (.del st.pop.length (needVar fc v (newSmt prev st).2).1)
+      (by simp [buildStmt]) hinv hok0
+    · exact ⟨dv, by rw [hdv]; simp, by simp [szS], hrows⟩
+    · exact L.ts
+    · exact L.sym
+    · simpa using L.shape
+    · rfl
+    · rfl
+    · rfl
+    · intro ext fuel hf hs
+      obtain ⟨f, rfl⟩ := fuel_succ (by simpa [szS] using hf)
+      simp only [regenSmt, hs, genStmt, L.row.regen]
+      rfl
   | relate a b r ph =>
-    simp only [coreS0, bne_iff_ne, ne_eq, Bool.and_eq_true, decide_eq_true_eq] at hc
     have hl2 : (needVar fc b (needVar fc a (newSmt prev st).2).2).2.ok = true := by simpa [buildStmt] using hok
-    have hl1 : (needVar fc a (newSmt prev st).2).2.ok = true := needVar_ok_mono hl2
-    obtain ⟨x, hfx, hnx⟩ := needVar_ok hl1 hc.1
-    rw [hnx] at hl2
-    obtain ⟨y, hfy, hny⟩ := needVar_ok hl2 hc.2
-    refine bare_spec (.rel st.pop.length x y r ph) true (by simp [buildStmt, hnx, hny, guard_true]) hinv hprev hok
-      rfl rfl rfl rfl ?_
-    intro ext f h
-    obtain ⟨bx, hbx⟩ := sym_row (newSmt_sym (prev := prev) hinv) hfx ([.rel st.pop.length x y r ph] ++ ext)
-    obtain ⟨by', hby⟩ := sym_row (newSmt_sym (prev := prev) hinv) hfy ([.rel st.pop.length x y r ph] ++ ext)
-    rw [← List.append_assoc] at hbx hby
-    simp only [regenSmt, h, genStmt, regenVar_name hbx, regenVar_name hby, phraseOf, phraseToks]
-    rfl
+    obtain ⟨L1, L2, hok0, ⟨dm, hdm, hrows⟩, hshape, hx, hy⟩ := look2 hinv hprev hl2
+    apply simple_spec (needVar fc b (needVar fc a (newSmt prev st).2).2).2
+      (.rel st.pop.length (needVar fc a (newSmt prev st).2).1 (needVar fc b (needVar fc a (newSmt prev st).2).2).1 r ph)
+      (by simp [buildStmt]) hinv hok0
+    · exact ⟨dm, hdm, by simp [szS], hrows⟩
+    · exact L2.ts
+    · exact L2.sym
+    · exact hshape
+    · rfl
+    · rfl
+    · rfl
+    · intro ext fuel hf hs
+      obtain ⟨f, rfl⟩ := fuel_succ (by simpa [szS] using hf)
+      simp only [regenSmt, hs, genStmt, hx.regen, hy.regen, phraseOf, phraseToks]
+      rfl
   | unrelate a b r ph =>
-    simp only [coreS0, bne_iff_ne, ne_eq, Bool.and_eq_true, decide_eq_true_eq] at hc
     have hl2 : (needVar fc b (needVar fc a (newSmt prev st).2).2).2.ok = true := by simpa [buildStmt] using hok
-    have hl1 : (needVar fc a (newSmt prev st).2).2.ok = true := needVar_ok_mono hl2
-    obtain ⟨x, hfx, hnx⟩ := needVar_ok hl1 hc.1
-    rw [hnx] at hl2
-    obtain ⟨y, hfy, hny⟩ := needVar_ok hl2 hc.2
-    refine bare_spec (.unr st.pop.length x y r ph) true (by simp [buildStmt, hnx, hny, guard_true]) hinv hprev hok
-      rfl rfl rfl rfl ?_
-    intro ext f h
-    obtain ⟨bx, hbx⟩ := sym_row (newSmt_sym (prev := prev) hinv) hfx ([.unr st.pop.length x y r ph] ++ ext)
-    obtain ⟨by', hby⟩ := sym_row (newSmt_sym (prev := prev) hinv) hfy ([.unr st.pop.length x y r ph] ++ ext)
-    rw [← List.append_assoc] at hbx hby
-    simp only [regenSmt, h, genStmt, regenVar_name hbx, regenVar_name hby, phraseOf, phraseToks]
-    rfl
+    obtain ⟨L1, L2, hok0, ⟨dm, hdm, hrows⟩, hshape, hx, hy⟩ := look2 hinv hprev hl2
+    apply simple_spec (needVar fc b (needVar fc a (newSmt prev st).2).2).2
+      (.unr st.pop.length (needVar fc a (newSmt prev st).2).1 (needVar fc b (needVar fc a (newSmt prev st).2).2).1 r ph)
+      (by simp [buildStmt]) hinv hok0
+    · exact ⟨dm, hdm, by simp [szS], hrows⟩
+    · exact L2.ts
+    · exact L2.sym
+    · exact hshape
+    · rfl
+    · rfl
+    · rfl
+    · intro ext fuel hf hs
+      obtain ⟨f, rfl⟩ := fuel_succ (by simpa [szS] using hf)
+      simp only [regenSmt, hs, genStmt, hx.regen, hy.regen, phraseOf, phraseToks]
+      rfl
   | relateU a b r ph u =>
-    simp only [coreS0, bne_iff_ne, ne_eq, Bool.and_eq_true, decide_eq_true_eq] at hc
-    have hl3 : (needVar fc u (needVar fc b (needVar fc a (newSmt prev st).2).2).2).2.ok = true := by simpa [buildStmt] using hok
-    have hl2 : (needVar fc b (needVar fc a (newSmt prev st).2).2).2.ok = true := needVar_ok_mono hl3
-    have hl1 : (needVar fc a (newSmt prev st).2).2.ok = true := needVar_ok_mono hl2
-    obtain ⟨x, hfx, hnx⟩ := needVar_ok hl1 hc.1.1
-    rw [hnx] at hl2 hl3
-    obtain ⟨y, hfy, hny⟩ := needVar_ok hl2 hc.1.2
-    rw [hny] at hl3
-    obtain ⟨z, hfz, hnz⟩ := needVar_ok hl3 hc.2
-    refine bare_spec (.ru st.pop.length x y z r ph) true (by simp [buildStmt, hnx, hny, hnz, guard_true]) hinv hprev hok
-      rfl rfl rfl rfl ?_
-    intro ext f h
-    obtain ⟨bx, hbx⟩ := sym_row (newSmt_sym (prev := prev) hinv) hfx ([.ru st.pop.length x y z r ph] ++ ext)
-    obtain ⟨by', hby⟩ := sym_row (newSmt_sym (prev := prev) hinv) hfy ([.ru st.pop.length x y z r ph] ++ ext)
-    obtain ⟨bz, hbz⟩ := sym_row (newSmt_sym (prev := prev) hinv) hfz ([.ru st.pop.length x y z r ph] ++ ext)
-    rw [← List.append_assoc] at hbx hby hbz
-    simp only [regenSmt, h, genStmt, regenVar_name hbx, regenVar_name hby, regenVar_name hbz, phraseOf, phraseToks]
-    simp
+    have hl3 : (needVar fc u (needVar fc b (needVar fc a (newSmt prev st).2).2).2).2.ok = true := by
+      simpa [buildStmt] using hok
+    obtain ⟨L3, hok0, ⟨dm, hdm, hrows⟩, hshape, hx, hy, hz⟩ := look3 hinv hprev hl3
+    apply simple_spec (needVar fc u (needVar fc b (needVar fc a (newSmt prev st).2).2).2).2
+      (.ru st.pop.length (needVar fc a (newSmt prev st).2).1 (needVar fc b (needVar fc a (newSmt prev st).2).2).1
+        (needVar fc u (needVar fc b (needVar fc a (newSmt prev st).2).2).2).1 r ph)
+      (by simp [buildStmt]) hinv hok0
+    · exact ⟨dm, hdm, by simp [szS], hrows⟩
+    · exact L3.ts
+    · exact L3.sym
+    · exact hshape
+    · rfl
+    · rfl
+    · rfl
+    · intro ext fuel hf hs
+      obtain ⟨f, rfl⟩ := fuel_succ (by simpa [szS] using hf)
+      simp only [regenSmt, hs, genStmt, hx.regen, hy.regen, hz.regen, phraseOf, phraseToks]
+      simp
   | unrelateU a b r ph u =>
-    simp only [coreS0, bne_iff_ne, ne_eq, Bool.and_eq_true, decide_eq_true_eq] at hc
-    have hl3 : (needVar fc u (needVar fc b (needVar fc a (newSmt prev st).2).2).2).2.ok = true := by simpa [buildStmt] using hok
-    have hl2 : (needVar fc b (needVar fc a (newSmt prev st).2).2).2.ok = true := needVar_ok_mono hl3
-    have hl1 : (needVar fc a (newSmt prev st).2).2.ok = true := needVar_ok_mono hl2
-    obtain ⟨x, hfx, hnx⟩ := needVar_ok hl1 hc.1.1
-    rw [hnx] at hl2 hl3
-    obtain ⟨y, hfy, hny⟩ := needVar_ok hl2 hc.1.2
-    rw [hny] at hl3
-    obtain ⟨z, hfz, hnz⟩ := needVar_ok hl3 hc.2
-    refine bare_spec (.uru st.pop.length x y z r ph) true (by simp [buildStmt, hnx, hny, hnz, guard_true]) hinv hprev hok
-      rfl rfl rfl rfl ?_
-    intro ext f h
-    obtain ⟨bx, hbx⟩ := sym_row (newSmt_sym (prev := prev) hinv) hfx ([.uru st.pop.length x y z r ph] ++ ext)
-    obtain ⟨by', hby⟩ := sym_row (newSmt_sym (prev := prev) hinv) hfy ([.uru st.pop.length x y z r ph] ++ ext)
-    obtain ⟨bz, hbz⟩ := sym_row (newSmt_sym (prev := prev) hinv) hfz ([.uru st.pop.length x y z r ph] ++ ext)
-    rw [← List.append_assoc] at hbx hby hbz
-    simp only [regenSmt, h, genStmt, regenVar_name hbx, regenVar_name hby, regenVar_name hbz, phraseOf, phraseToks]
-    simp
+    have hl3 : (needVar fc u (needVar fc b (needVar fc a (newSmt prev st).2).2).2).2.ok = true := by
+      simpa [buildStmt] using hok
+    obtain ⟨L3, hok0, ⟨dm, hdm, hrows⟩, hshape, hx, hy, hz⟩ := look3 hinv hprev hl3
+    apply simple_spec (needVar fc u (needVar fc b (needVar fc a (newSmt prev st).2).2).2).2
+      (.uru st.pop.length (needVar fc a (newSmt prev st).2).1 (needVar fc b (needVar fc a (newSmt prev st).2).2).1
+        (needVar fc u (needVar fc b (needVar fc a (newSmt prev st).2).2).2).1 r ph)
+      (by simp [buildStmt]) hinv hok0
+    · exact ⟨dm, hdm, by simp [szS], hrows⟩
+    · exact L3.ts
+    · exact L3.sym
+    · exact hshape
+    · rfl
+    · rfl
+    · rfl
+    · intro ext fuel hf hs
+      obtain ⟨f, rfl⟩ := fuel_succ (by simpa [szS] using hf)
+      simp only [regenSmt, hs, genStmt, hx.regen, hy.regen, hz.regen, phraseOf, phraseToks]
+      simp
   | assign l r =>
     have hM0ok : ((newSmt prev st).2.guard (plainE (newSmt prev st).2 r)).ok = true → st.ok = true := by
       intro h; simp at h; exact h.1.1
@@ -809,7 +1085,7 @@ theorem buildStmt_spec0 (fc : FCtx) (s : Stmt) (prev : Option Nat) (st : St) (hc
     | field h a =>
       simp only [coreS0, Bool.and_eq_true] at hc
       exact assign_expr_spec ((newSmt prev st).2.guard (plainE (newSmt prev st).2 r)) (by simp) (by simp) hM0ok
-        (by simp [buildStmt, buildLval]) hinv hprev hc.2 (by simpa [coreE] using hc.1) hok
+        (by simp [buildStmt, buildLval]) hinv hprev hc.2 (by simp [coreX, hc.1]) hok
     | var n =>
       simp only [coreS0, Bool.and_eq_true, bne_iff_ne, ne_eq] at hc
       have hn : n ≠ "self" := hc.1
@@ -824,7 +1100,7 @@ theorem buildStmt_spec0 (fc : FCtx) (s : Stmt) (prev : Option Nat) (st : St) (hc
               buildExpr fc (.var n) (buildExpr fc r ((newSmt prev st).2.guard (plainE (newSmt prev st).2 r))).2 := by
             simp [buildLval, lookupVar_eq hcnd, hg, hf]
           exact assign_expr_spec ((newSmt prev st).2.guard (plainE (newSmt prev st).2 r)) (by simp) (by simp) hM0ok
-            (by simp [buildStmt, hbl]) hinv hprev hc.2 rfl hok
+            (by simp [buildStmt, hbl]) hinv hprev (coreX_of_coreE hc.2) rfl hok
         | none =>
           have hs : (n == "self") = false := by simpa using hn
           exact assign_new_spec ((newSmt prev st).2.guard (plainE (newSmt prev st).2 r)) (by simp) (by simp) hM0ok
@@ -2897,5 +3173,59 @@ example : regenFlat (prebuildFlat ifElifElseFc ifElifElseBody) = genTokens ifEli
 /-- the ACT_EL / ACT_E rows of the outer `if` (statement 9) are found over R682 / R683 -/
 example : (elifsOf (prebuildFlat ifElifElseFc ifElifElseBody) 9).length = 2 ∧
     (elseOf (prebuildFlat ifElifElseFc ifElifElseBody) 9).isSome = true := by decide
+
+/-! ### non-vacuity: `self` as the instance name of relate / unrelate (+ using) / delete, in a home that has a `self` -/
+
+/-- `select any d from instances of DOG; while (true) unrelate d from self across R1.'chases' using self; end while;
+    relate self to d across R1; relate self to d across R1 using self; delete object instance self;`
+    (the look-up inside the loop creates V_VAR + V_INT in the scope of the loop's block; after the loop the name is
+    not visible any more and is created again in the outer block) -/
+def selfBody : Block :=
+  .cons (.selFrom "any" "d" "DOG")
+  (.cons (.while_ (.bool "true") (.cons (.unrelateU "d" "self" "R1" "'chases'" "self") .nil))
+  (.cons (.relate "self" "d" "R1" "")
+  (.cons (.relateU "self" "d" "R1" "" "self")
+  (.cons (.delete "self") .nil))))
+
+def selfFc : FCtx := { ees := [], classes := ["DOG"], selfKl := some "DOG" }
+
+example : coreB selfBody = true ∧ flatOk selfFc selfBody = true := by decide
+
+example : regenFlat (prebuildFlat selfFc selfBody) = genTokens selfBody :=
+  regenFlat_prebuildFlat selfFc selfBody (by decide) (okAll_of_flatOk selfFc selfBody (by decide) (by decide))
+
+/-- `self` is created twice (rows 10 / 11 in the loop's block 8, rows 15 / 16 in the outer block 0), each time as a
+    V_VAR + a V_INT of the home's class; the printed text has the keyword -/
+example : (prebuildFlat selfFc selfBody)[10]? = some (.var "self" 8) ∧
+    (prebuildFlat selfFc selfBody)[11]? = some (.vint 10 "DOG") ∧
+    (prebuildFlat selfFc selfBody)[12]? = some (.uru 9 2 10 10 "R1" "'chases'") ∧
+    (prebuildFlat selfFc selfBody)[15]? = some (.var "self" 0) ∧
+    (prebuildFlat selfFc selfBody)[16]? = some (.vint 15 "DOG") ∧
+    (prebuildFlat selfFc selfBody)[19]? = some (.ru 18 15 2 15 "R1" "") ∧
+    ((prebuildFlat selfFc selfBody).filter (fun r => r.cls == "V_VAR")).length = 3 ∧
+    Tok.kw .self_ ∈ genTokens selfBody := by decide
+
+/-- in a home without a `self` the same body is rejected (the real code raises) -/
+example : flatOk { selfFc with selfKl := none } selfBody = false := by decide
+
+/-- `self.Age = 3; select any d from instances of DOG; d.Age = self.Age; while (true) self.Age = d.Age; end while;
+    return self.Age;` (`self` as the root of an assigned / a read attribute; the first statement creates the variable,
+    the loop body finds it in the enclosing scope) -/
+def selfBody2 : Block :=
+  .cons (.assign (.field .self "Age") (.int "3"))
+  (.cons (.selFrom "any" "d" "DOG")
+  (.cons (.assign (.field (.var "d") "Age") (.field .self "Age"))
+  (.cons (.while_ (.bool "true") (.cons (.assign (.field .self "Age") (.field (.var "d") "Age")) .nil))
+  (.cons (.ret (some (.field .self "Age"))) .nil))))
+
+set_option maxRecDepth 100000 in
+example : coreB selfBody2 = true ∧ flatOk selfFc selfBody2 = true := by decide
+
+set_option maxRecDepth 100000 in
+example : regenFlat (prebuildFlat selfFc selfBody2) = genTokens selfBody2 :=
+  regenFlat_prebuildFlat selfFc selfBody2 (by decide) (okAll_of_flatOk selfFc selfBody2 (by decide) (by decide))
+
+set_option maxRecDepth 100000 in
+example : ((prebuildFlat selfFc selfBody2).filter (fun r => r == .var "self" 0)).length = 1 := by decide
 
 end Pyx.Prebuild.Flat
